@@ -241,7 +241,12 @@ impl datagram_pipe::Sink for MultiplexerSink {
             .map(|c| c.socket.clone())
             .ok_or_else(|| io::Error::from(ErrorKind::NotFound))?;
 
-        socket.send(datagram.payload.as_ref()).await?;
+        // an error of one flow's socket (e.g. a queued ICMP port unreachable) costs that datagram
+        // only; a broken socket is reported by the reading side
+        if let Err(e) = socket.send(datagram.payload.as_ref()).await {
+            debug!("Failed to send UDP datagram: meta={:?} error={}", meta, e);
+            return Ok(datagram_pipe::SendStatus::Dropped);
+        }
 
         if let Some(conn) = self.shared.connections.lock().unwrap().get_mut(&meta) {
             if !conn.being_listened {
